@@ -271,6 +271,16 @@ pub fn run(args: &Args) -> i32 {
         check_adc(&b, loc, true);
     });
 
+    // 3b. more samples than a 16-bit count can hold (arithmetic done in u16 wraps at 65536)
+    let big_n = [65533usize, 65534, 65535, 65536, 65537, 65600, 66233, 66234, 66235, 131072 + 64, 131072 + 697];
+    rep.run("oversize-packets", big_n.len() as u64 * 4 * 2, 60, true, "sample count {65533..65537, 65600, 65536+697..699, 131072+64, 131072+697} x requested_samples {699, 66, (n+2) mod 65536, 65535} x suppression {off, on with keep_bit and keep_last 34}", |idx, loc| {
+        let d = unrank(idx, &[big_n.len() as u64, 4, 2]);
+        let n = big_n[d[0] as usize];
+        let req = [699u16, 66, ((n + 2) % 65536) as u16, 65535][d[1] as usize];
+        let b = if d[2] == 0 { adc_packet(n, 1, req, 0, false, false, 0, 0) } else { adc_packet(n, 1, req, 34, true, true, 0, 0) };
+        check_adc(&b, loc, true);
+    });
+
     // 4. independent header fields: full product (<= 4 simultaneous deviations)
     let types = [1u8, 0, 2, 255];
     let versions = [3u8, 0, 2, 4, 255];
